@@ -333,6 +333,11 @@ def run(ctx):
         for sig, what, rep in extra:
             found = True
             report(ctx, sig, what, rep)
+        extra, rlcov = c03_relocation(ctx)
+        refcov.update(rlcov)
+        for sig, what, rep in extra:
+            found = True
+            report(ctx, sig, what, rep)
         extra, sucov = c03_string_update(ctx)
         refcov = dict(refcov or {}); refcov.update(sucov)
         for sig, what, rep in extra:
@@ -392,6 +397,34 @@ def image_size(c):
 
 
 
+
+# ------------------------------------------------------------------ C03: constructions after a relocation
+def relocation_cases(seed):
+    rng = random.Random(seed + 333)
+    cases = []; k = 0
+    for dyn in ("array", "string", "static", "none"):
+        for holder in ("ref", "union", "refarray"):
+            for dest in ("other-buffer", "other-context", "same-buffer"):
+                k += 1
+                cases.append({"seed": k, "dyn": dyn, "holder": holder, "dest": dest, "cap": rng.choice([256, 1024]), "nleft": rng.choice([0, 1, 4]),
+                              "new_sizes": [rng.choice([0, 1, 2]), rng.choice([3, 4, 5]), rng.choice([6, 9, 20])]})
+    return cases
+
+
+def c03_relocation(ctx):
+    cases = relocation_cases(ctx.seed)
+    results = run_impl(ctx, "relocate", {"cases": cases})["results"]
+    bysig = {}; hist = collections.Counter()
+    for c, r in zip(cases, results):
+        hist["moved" if r.get("moved") else "not-run:" + str(r.get("note", r.get("harness", "?")))[:40]] += 1
+        if r.get("harness"):
+            bysig.setdefault("C03/relocation/harness-problem", (c, r["harness"] + r.get("tb", "")[-200:], r))
+        for v in r["violations"]:
+            sig = "C03/relocation/%s/%s-via-%s" % (v["what"], c["dest"], c["holder"])
+            bysig.setdefault(sig, (c, v["detail"], r))
+    out = [(sig, what, dict(kind="concrete", tie="K-RELOCATE", case=c, observed=r, how_to_replay="./check C03 --replay <this file>")) for sig, (c, what, r) in sorted(bysig.items())]
+    return out, dict(relocation_probes=len(cases), relocation_outcomes=dict(hist))
+
 # ------------------------------------------------------------------ C03: the stand-alone assignment method of strings
 def string_update_cases(seed):
     rng = random.Random(seed + 303)
@@ -427,6 +460,10 @@ def c03_string_update(ctx):
 
 def replay(ctx, path):
     r = json.load(open(path))
+    if r.get("tie") == "K-RELOCATE":
+        res = run_impl(ctx, "relocate", {"cases": [r["case"]]})["results"][0]
+        print(res); print("REPRODUCED" if res["violations"] else "not reproduced")
+        return 1 if res["violations"] else 0
     if r.get("tie") == "K-STRUPDATE":
         res = run_impl(ctx, "strupdate", {"cases": [r["case"]]})["results"][0]
         js = judge_string_update(r["case"], res)
